@@ -9,6 +9,7 @@
    cast is not reached (the rounded quotient fits an i32), `jline_ok` is the coordinate range +-511 in
    which that is guaranteed for arbitrary pairs of lines. *)
 From EG Require Import Base.Prelude Model.Geometry Model.Line Model.Thickline Model.Join Proofs.Join.
+Set Default Timeout 60.
 
 (* the arithmetic core of repair a4a7ab8 (floor-based rounding): adding k divisors to the numerator moves the
    rounded quotient by exactly k *)
@@ -78,6 +79,48 @@ Theorem C07_join_linejoin_translate : forall s m e w so d,
   lj_from_points (padd s d) (padd m d) (padd e d) w so = option_map (tr_join d) (lj_from_points s m e w so).
 Proof. exact lj_from_points_translate. Qed.
 
+(* ThickSegment::intersection(scanline_y): the scanline of the moved segment at y + dy is the moved scanline
+   (sl_rel: equally empty, and the same x range moved by dx when not empty) *)
+Theorem C07_join_thick_segment_scanline_translate : forall d t y,
+  sl_rel d (ts_intersection t y) (ts_intersection (tr_segment d t) (y + py d)).
+Proof. exact ts_intersection_rel. Qed.
+
+(* ---- composition: thick polylines (the whole pipeline of polyline/styled.rs for stroke widths > 1) ----------
+   Hypotheses: poly_nosat  - in no join of three consecutive vertices a *used* rounded intersection reaches the
+                             saturating cast, before and after the move (a computable predicate of the input);
+               poly_box_ok - the corners of every thick segment lie within +-2^29 (then Rectangle::rows and the
+                             i32::MAX / i32::MIN start values of the bounding box fold do not interfere). *)
+
+(* vertices moved by d: pixels() yields the moved pixels in the same order *)
+Theorem C07_join_polyline_vertices_translate : forall w d pts t,
+  poly_nosat pts w d = true -> poly_box_ok pts w -> poly_box_ok (map (tr_pt d) pts) w ->
+  poly_thick_points (map (tr_pt d) pts) t w = option_map (map (tr_pt d)) (poly_thick_points pts t w).
+Proof. exact poly_thick_points_tr. Qed.
+
+(* ... and draw() issues the moved fill_solid rectangles in the same order *)
+Theorem C07_join_polyline_draw_translate : forall w d pts,
+  poly_nosat pts w d = true -> poly_box_ok pts w -> poly_box_ok (map (tr_pt d) pts) w ->
+  poly_thick_rects (map (tr_pt d) pts) w = option_map (map (fun r => translate_rect r d)) (poly_thick_rects pts w).
+Proof. exact poly_thick_rects_tr. Qed.
+
+(* the translate field of Polyline (Transform::translate): added to every pixel, no hypothesis *)
+Theorem C07_join_polyline_field_translate : forall w pts t d,
+  poly_thick_points pts (padd t d) w = option_map (map (tr_pt d)) (poly_thick_points pts t w).
+Proof. exact poly_thick_points_field. Qed.
+
+(* hence moving the vertices and using the translate field give the same pixels *)
+Theorem C07_join_polyline_vertices_vs_field : forall w d pts t,
+  poly_nosat pts w d = true -> poly_box_ok pts w -> poly_box_ok (map (tr_pt d) pts) w ->
+  poly_thick_points (map (tr_pt d) pts) t w = poly_thick_points pts (padd t d) w.
+Proof. intros. rewrite poly_thick_points_field. apply poly_thick_points_tr; assumption. Qed.
+
+(* the (non-empty) styled bounding box moves with the vertices *)
+Theorem C07_join_polyline_bbox_translate : forall w d a b r,
+  poly_nosat (a :: b :: r) w d = true -> poly_box_ok (a :: b :: r) w -> poly_box_ok (map (tr_pt d) (a :: b :: r)) w ->
+  poly_thick_bounding_box (map (tr_pt d) (a :: b :: r)) w =
+  option_map (fun bb => translate_rect bb d) (poly_thick_bounding_box (a :: b :: r) w).
+Proof. exact poly_thick_bounding_box_tr. Qed.
+
 (* non-vacuity: the hypotheses hold and the functions compute something non-trivial.
    The lines of finding l (Triangle (0,0),(3,1),(3,9), stroke 4, moved by (13,-11)): a miter join whose
    corners are rounded intersection points, and the same join after the move. *)
@@ -92,3 +135,22 @@ Example C07_join_nonvacuous :
   ip_intersection (ip_from_lines (L (P 0 0) (P 10 1)) (L (P 0 5) (P 7 (-9)))) = IPoint (P 2 0) SLeft /\
   round_div_raw (-4) 6 = -1 /\ round_div_raw 4 (-6) = -1 /\ round_div_raw 4 6 = 2.
 Proof. vm_compute. repeat split; try reflexivity; discriminate. Qed.
+
+(* non-vacuity of the composition: the polyline of finding l, [(0,0),(3,0),(0,6)] with stroke 4 moved by (-7,-9) *)
+Example C07_join_polyline_nonvacuous :
+  let pts := [P 0 0; P 3 0; P 0 6] in let d := P (-7) (-9) in
+  poly_nosat pts 4 d = true /\ poly_box_ok pts 4 /\ poly_box_ok (map (tr_pt d) pts) 4 /\
+  option_map (@length point) (poly_thick_points pts (P 0 0) 4) = Some 53%nat /\
+  poly_thick_bounding_box pts 4 = Some (R (P (-1) (-2)) (S 9 10)).
+Proof.
+  cbv zeta. split; [vm_compute; reflexivity|]. split; [|split].
+  - unfold poly_box_ok.
+    let x := eval vm_compute in (thick_segment_iter [P 0 0; P 3 0; P 0 6] 4) in
+      change (thick_segment_iter [P 0 0; P 3 0; P 0 6] 4) with x.
+    cbv iota beta. repeat (constructor; try (unfold seg_ok, jpt_big, jbig; cbn; lia)).
+  - unfold poly_box_ok.
+    let x := eval vm_compute in (thick_segment_iter (map (tr_pt (P (-7) (-9))) [P 0 0; P 3 0; P 0 6]) 4) in
+      change (thick_segment_iter (map (tr_pt (P (-7) (-9))) [P 0 0; P 3 0; P 0 6]) 4) with x.
+    cbv iota beta. repeat (constructor; try (unfold seg_ok, jpt_big, jbig; cbn; lia)).
+  - vm_compute. split; reflexivity.
+Qed.
